@@ -236,6 +236,12 @@ theorem C14_finding_task_template_defaults_over_vars : ¬ C14_model_meets_spec_f
   revert this
   decide
 
+/-- With notes/C14.fix.patch (`cmdStackFixed`) the command line follows the
+    documented order, so the hypothesis of the partial theorem becomes unnecessary. -/
+theorem C14_cmd_fixed_follows_rule (wf special td tv : KV) (k : String) (hk : lookup special k = none) :
+    lookup (cmdStackFixed wf special td tv) k = orElse (lookup wf k) (orElse (lookup tv k) (lookup td k)) := by
+  simp [cmdStackFixed, lookup_wrappedAndFlattened, lookup_overlay, hk, get_cons]
+
 /-- What the command line does see (as coded): workflow, then template defaults, then template vars. -/
 theorem C14_cmd_as_coded (keys : List String) (special : KV) (p : Path) (locals td tv : KV)
     (hclear : ∀ k ∈ keys, lookup special k = none) :
